@@ -61,7 +61,8 @@ POOL = []
 def load(tier):
     global POOL
     P = docs.pool()
-    POOL = [P[0].text(), P[2].text(), P[4].text(), '**kern\t**text\n*clefG2\t*\n4c\tDó-\n4d\tña "x"\n4e\t, ;\n*-\t*-\n']
+    POOL = [P[0].text(), P[2].text(), P[4].text(), '**kern\t**text\n*clefG2\t*\n4c\tDó-\n4d\tña "x"\n4e\t, ;\n*-\t*-\n',
+            '!!!COM: x\n\n**kern\t**kern\n*clefG2\t*clefF4\n\n=1\t=1\n4c\t4C\n\n\n4d\t4D\n==\t==\n*-\t*-\n\n!!!end\n\n']
 
 
 @contextlib.contextmanager
@@ -283,12 +284,12 @@ OBLIGATIONS = [
     Ob(id='C20.b', fn=ob_b, title='load(file) == loads(text) for LF / CRLF, with / without final newline, non-ASCII lyrics, str and Path',
        budget_s={'quick': 120, 'thorough': 600}, witnesses=[{'d': 0, 'crlf': True, 'final_nl': False}], min_confirmed=16,
        enumerated='document, line ending, final newline', realized_at=['open() / csv.reader in Importer.import_file (real temporary files)'],
-       bounds={'quick': '4 documents x {LF, CRLF} x {final newline, none}', 'thorough': 'same'}),
+       bounds={'quick': '5 documents (one with blank lines everywhere) x {LF, CRLF} x {final newline, none}', 'thorough': 'same'}),
     Ob(id='C20.c', fn=ob_c, title='dump writes exactly what dumps returns, creating 0-3 missing directory levels',
        shard_of=lambda d, o, depth, exists, as_path: o, shards={'quick': 5, 'thorough': 5}, budget_s={'quick': 150, 'thorough': 600},
        witnesses=[{'d': 0, 'o': 1, 'depth': 2, 'exists': False, 'as_path': False}], min_confirmed=200,
        enumerated='document, option set (5), directory depth (0-3), directory pre-existing, str / Path', realized_at=['_io._write (real temporary files)'],
-       bounds={'quick': '4 x 5 x 4 x 2 x 2', 'thorough': 'same'}),
+       bounds={'quick': '5 x 5 x 4 x 2 x 2', 'thorough': 'same'}),
     Ob(id='C20.d', fn=ob_d, title='--kern2ekern (single file, explicit output, directory, recursive) writes what the API produces; converter round trip',
        shard_of=lambda layout, order, crlf: layout + 5 * order, shards={'quick': 15, 'thorough': 15}, budget_s={'quick': 150, 'thorough': 600},
        witnesses=[{'layout': 2, 'order': 0, 'crlf': False}], min_confirmed=40,
